@@ -8,8 +8,9 @@ PSYM = [b"a", b"b", b"*", b"?", b"[", b"]", b"!", b"^", b"-", b"\\", b".", b"\n"
 SSYM = [b"a", b"b", b"-", b"]", b"[", b".", b"\n"]
 MODES = [9, 10, 5, 6]  # Prefix|Smallest, Prefix|Largest, Suffix|Smallest, Suffix|Largest
 EXTRA_P = [b"c", b"[:alpha:]", b"[:digit:]", b"[:space:]", b"[:punct:]", b"[:upper:]", b"[:nope:]", b"[:", b":]", "é".encode(), "日".encode(),
-           b"+", b"(", b")", b"|", b"{", b"}", b"$", b"/", b" ", b"0", b"9", b"A", b"z", b"\\\\", b"\\*", b"\\?", b"\\[", b"\\]", b"[!", b"[^", b"a-c", b"\xff"]
-EXTRA_S = [b"c", "é".encode(), "日".encode(), b"+", b"(", b")", b"|", b"{", b"$", b"\\", b"*", b"?", b" ", b"0", b"9", b"A", b"z", b"!", b"^", b"\xff", b":"]
+           b"+", b"(", b")", b"|", b"{", b"}", b"$", b"/", b" ", b"0", b"9", b"A", b"z", b"\\\\", b"\\*", b"\\?", b"\\[", b"\\]", b"[!", b"[^", b"a-c", b"\xff",
+           "\ufffd".encode(), b"\\" + "\ufffd".encode(), b"[\\" + "\ufffd".encode() + b"]", b"\\" + "é".encode(), b"\\{", b"\\}", b"{2}", b"{1,}", b"\\+", b"\\|", b"\\(", b"\\)"]
+EXTRA_S = ["\ufffd".encode(), b"}", b"c", "é".encode(), "日".encode(), b"+", b"(", b")", b"|", b"{", b"$", b"\\", b"*", b"?", b" ", b"0", b"9", b"A", b"z", b"!", b"^", b"\xff", b":"]
 
 
 def mk(pats, mode, s):
@@ -58,7 +59,7 @@ class P:
 
         # structured bracket expressions: members are literals, escaped literals, ranges (also with escaped ends), named classes
         bc = []
-        LITS = [b"a", b"c", b"e", b"-", b"]", b"[", b"!", b"^", b".", b"0", b"9", b"Z", b"\n", "é".encode()]
+        LITS = [b"a", b"c", b"e", b"-", b"]", b"[", b"!", b"^", b".", b"0", b"9", b"Z", b"\n", "é".encode(), "\ufffd".encode()]
         nbr = 12000 if tier == "quick" else 150000
         for _ in range(nbr):
             mem = []
